@@ -425,8 +425,11 @@ class Tr:
         if not self.pending:
             return text + rest_text
         pre = ""
-        for var, call in self.pending:
-            pre += self.line(ind, "match %s with None => %s | Some %s =>" % (call, k.rais(s), var))
+        for var, call, kind in self.pending:
+            if kind == "option":
+                pre += self.line(ind, "match %s with None => %s | Some %s =>" % (call, k.rais(s), var))
+            else:
+                pre += self.line(ind, "match %s with Raise => %s | Ok %s =>" % (call, k.rais(s), var))
         n = len(self.pending)
         self.pending = []
         return _close(pre + text + rest_text, " end" * n)
@@ -683,12 +686,30 @@ class Tr:
 
         def no(what):
             return lambda n, *a: self.fail(n, what + " inside a conditional that is followed by more statements")
-        join = K(lambda _n: tup, no("continue"), no("break"), no("return"), lambda n: k.rais(n))
+        raised = []
+
+        def rais(n):
+            raised.append(n)
+            return "Raise"
+        join = K(lambda _n: tup, no("continue"), no("break"), no("return"), rais)
+        saved = (env_t.copy(), env_f.copy())
         out = self.line(ind, "let %s :=" % pat)
         out += self.line(ind + 1, "(if %s then" % c, s)
         out += self.block(body, env_t, join, ind + 2)
         out += self.line(ind + 1, "else")
         out += _close(self.block(orelse, env_f, join, ind + 2), ") in")
+        if raised:
+            # a branch can raise: the joined value is a `res`, matched before what follows
+            env_t, env_f = saved
+            join = K(lambda _n: "Ok %s" % _paren(tup), no("continue"), no("break"), no("return"), lambda n: "Raise")
+            out = self.line(ind, "match")
+            out += self.line(ind + 1, "(if %s then" % c, s)
+            out += self.block(body, env_t, join, ind + 2)
+            out += self.line(ind + 1, "else")
+            out += _close(self.block(orelse, env_f, join, ind + 2), ")")
+            out += self.line(ind, "with Raise => %s | Ok %s =>" % (k.rais(s), pat.lstrip("'")))
+            self.merge(s, env, [env_t, env_f])
+            return _close(out + self.block(rest, env, k, ind), " end")
         self.merge(s, env, [env_t, env_f])
         return out + self.block(rest, env, k, ind)
 
@@ -820,8 +841,10 @@ class Tr:
             self.fail(node, "returns a value of type %s, the translator expects %s" % (ty, self.spec["ret"]))
         return text
 
+    extra_params = []       # variables bound before the translated statements (a slice of a function)
+
     def params_text(self):
-        return " ".join("(%s : %s)" % (n, self.COQ_TYPE[ty]) for n, ty in self.spec["params"])
+        return " ".join("(%s : %s)" % (n, self.COQ_TYPE[ty]) for n, ty in list(self.spec["params"]) + list(self.extra_params))
 
     def preamble(self, env, ind):
         return ""
@@ -830,7 +853,7 @@ class Tr:
         spec = self.spec
         while True:
             env = Env()
-            for n, ty in spec["params"]:
+            for n, ty in list(spec["params"]) + list(self.extra_params):
                 env.types[n] = ty
             k = K(lambda _n: self.fall_off(), lambda n: self.fail(n, "continue outside a loop"),
                   lambda n: self.fail(n, "break outside a loop"), self.ret_text,
@@ -1092,6 +1115,283 @@ def render_walk(repo=None):
     return WALK_HEAD % rel + text + "\nEnd Walk.\n"
 
 
+# ====================================================================== edit
+FINDALL_PATTERN = "[A-Z][0-9]{0,3}"
+CFG_KEYS = {"min_length": ("EditRules.min_length %s", NAT), "max_length": ("EditRules.max_length %s", NAT),
+            "terminal_set": ("cfg_list (EditRules.terminal_set %s)", STRS), "regex": ("EditRules.regexes %s", STRS)}
+
+
+def str_lit(v):
+    if not v:
+        return "(@nil N)"
+    if any(ord(ch) > 0x10FFFF for ch in v) or len(v) > 200:
+        raise TranslateError("string constant not representable")
+    return "[" + "; ".join("%d%%N" % ord(ch) for ch in v) + "]"
+
+
+class EditTr(Tr):
+    KERNEL = "edit"
+    COQ_TYPE = dict(Tr.COQ_TYPE, **{STR: "str", STRS: "list str", RES: "res str", CFG: "EditRules.config"})
+    RESERVED = RESERVED_COMMON | set("""str res Ok Raise tokens int_of re_search isspace cfg_list EditRules
+        TAB whole gline gstruct gprob edit keep min_length max_length terminal_set regexes""".split())
+
+    def check_name(self, node, name):
+        # the parameters min_length / max_length / terminal_set shadow the projections of the model's config record
+        # inside the generated definition, which refers to those by their qualified names
+        if name in ("min_length", "max_length", "terminal_set"):
+            return
+        Tr.check_name(self, node, name)
+
+    def elem_type(self, node, ty):
+        if ty == STRS:
+            return STR
+        self.fail(node, "iteration / item access on a %s" % ty)
+
+    def is_fresh_value(self, v):
+        return False
+
+    def ret_text(self, node, text, ty):
+        if self.spec["ret"] == RES:
+            if ty != STR:
+                self.fail(node, "returns a value of type %s, the translator expects str" % ty)
+            return "Ok %s" % _paren(text)
+        return Tr.ret_text(self, node, text, ty)
+
+    def raise_text(self, node):
+        if self.spec["ret"] == RES:
+            return "Raise"
+        self.fail(node, "an exception cannot be represented in the result of this function")
+
+    def fall_off(self):
+        if self.spec.get("falls_to"):
+            return "Ok %s" % self.spec["falls_to"]
+        self.fail(self.fn, "the function can end without a return statement")
+
+    @staticmethod
+    def is_mod_call(e, mod, name, nargs):
+        return (isinstance(e, ast.Call) and isinstance(e.func, ast.Attribute) and e.func.attr == name
+                and isinstance(e.func.value, ast.Name) and e.func.value.id == mod
+                and len(e.args) == nargs and not e.keywords)
+
+    @staticmethod
+    def method_call(e, name, nargs):
+        if isinstance(e, ast.Call) and isinstance(e.func, ast.Attribute) and e.func.attr == name \
+                and len(e.args) == nargs and not e.keywords:
+            return e.func.value
+        return None
+
+    def sep_char(self, node, a):
+        if not (isinstance(a, ast.Constant) and type(a.value) is str and len(a.value) == 1):
+            self.fail(node, "split needs a one-character constant separator")
+        return ord(a.value)
+
+    def expr(self, e, env):
+        if isinstance(e, ast.Constant) and type(e.value) is str:
+            try:
+                return str_lit(e.value), STR
+            except TranslateError as err:
+                self.fail(e, str(err))
+        if isinstance(e, ast.Call):
+            f = e.func
+            recv = self.method_call(e, "split", 1)
+            if recv is not None:
+                v, tv = self.expr(recv, env)
+                if tv != STR:
+                    self.fail(e, "split of a %s" % tv)
+                return "split_on %d %s" % (self.sep_char(e, e.args[0]), _paren(v)), STRS
+            recv = self.method_call(e, "strip", 0)
+            if recv is not None:
+                v, tv = self.expr(recv, env)
+                if tv != STR:
+                    self.fail(e, "strip of a %s" % tv)
+                return "strip isspace %s" % _paren(v), STR
+            recv = self.method_call(e, "join", 1)
+            if recv is not None and not (isinstance(recv, ast.Name) and recv.id in ("re", "config")):
+                if not (isinstance(recv, ast.Constant) and recv.value == ""):
+                    self.fail(e, "only ''.join(l) is supported")
+                v, tv = self.expr(e.args[0], env)
+                if tv != STRS:
+                    self.fail(e, "join of a %s" % tv)
+                return "concat %s" % _paren(v), STR
+            if self.is_mod_call(e, "re", "findall", 2):
+                pat = e.args[0]
+                if not (isinstance(pat, ast.Constant) and pat.value == FINDALL_PATTERN):
+                    self.fail(e, "re.findall is supported for the pattern %r only (EditRules.tokens)" % FINDALL_PATTERN)
+                v, tv = self.expr(e.args[1], env)
+                if tv != STR:
+                    self.fail(e, "findall in a %s" % tv)
+                return "tokens %s" % _paren(v), STRS
+            if self.is_mod_call(e, "re", "search", 2):
+                a, ta = self.expr(e.args[0], env)
+                b, tb = self.expr(e.args[1], env)
+                if (ta, tb) != (STR, STR):
+                    self.fail(e, "re.search(%s, %s)" % (ta, tb))
+                return "re_search %s %s" % (_paren(a), _paren(b)), BOOL
+            if self.is_mod_call(e, "config", "get", 1) and env.types.get("config") == CFG:
+                key = e.args[0]
+                if not (isinstance(key, ast.Constant) and key.value in CFG_KEYS):
+                    self.fail(e, "config key outside the model's config record (%s)" % ", ".join(sorted(CFG_KEYS)))
+                text, ty = CFG_KEYS[key.value]
+                return text % "config", ty
+            if isinstance(f, ast.Name) and f.id == "int" and len(e.args) == 1 and not e.keywords:
+                v, tv = self.expr(e.args[0], env)
+                if tv != STR:
+                    self.fail(e, "int of a %s" % tv)
+                var = self.gensym("int")
+                self.pending.append((var, "int_of %s" % _paren(v), "option"))
+                return var, NAT
+            if isinstance(f, ast.Name) and f.id in self.done and not e.keywords:
+                spec = self.done[f.id]
+                if len(e.args) != len(spec["params"]):
+                    self.fail(e, "wrong number of arguments")
+                args = []
+                for a, (n, ty) in zip(e.args, spec["params"]):
+                    t, ta = self.expr(a, env)
+                    if ta != ty:
+                        self.fail(a, "argument %r has type %s, expected %s" % (n, ta, ty))
+                    args.append(_paren(t))
+                call = "%s %s" % (spec["coq"], " ".join(args))
+                if spec["ret"] == RES:
+                    var = self.gensym("res")
+                    self.pending.append((var, call, "res"))
+                    return var, STR
+                return call, spec["ret"]
+            self.fail(e, "unsupported call")
+        if isinstance(e, ast.Subscript):
+            if not isinstance(e.ctx, ast.Load):
+                self.fail(e, "unsupported use of a subscript")
+            v, tv = self.expr(e.value, env)
+            sl = e.slice
+            if tv == STRS and isinstance(sl, ast.Constant) and type(sl.value) is int and 0 <= sl.value <= 50:
+                return "sub undef_str %s %d" % (_paren(v), sl.value), STR
+            if tv == STR and isinstance(sl, ast.Constant) and type(sl.value) is int and sl.value == 0:
+                return "char0 undef_str %s" % _paren(v), STR
+            if tv == STR and isinstance(sl, ast.Slice) and sl.upper is None and sl.step is None \
+                    and isinstance(sl.lower, ast.Constant) and type(sl.lower.value) is int and 0 <= sl.lower.value <= 50:
+                return "skipn %d %s" % (sl.lower.value, _paren(v)), STR
+            self.fail(e, "unsupported subscript of a %s" % tv)
+        return self.common_expr(e, env)
+
+    def add_op(self, node, a, ta, b, tb):
+        if (ta, tb) == (STR, STR):
+            return "%s ++ %s" % (_paren(a), _paren(b)), STR
+        return Tr.add_op(self, node, a, ta, b, tb)
+
+    def compare(self, e, env):
+        a, ta = self.expr(e.left, env)
+        b, tb = self.expr(e.comparators[0], env)
+        op = type(e.ops[0])
+        if (ta, tb) == (STR, STR) and op in (ast.Eq, ast.NotEq):
+            t = "s_eqb %s %s" % (_paren(a), _paren(b))
+            return (t if op is ast.Eq else "negb (%s)" % t), BOOL
+        if (ta, tb) == (STR, STRS) and op in (ast.In, ast.NotIn):
+            t = "s_in %s %s" % (_paren(a), _paren(b))
+            return (t if op is ast.In else "negb (%s)" % t), BOOL
+        if (ta, tb) == (NAT, NAT):
+            return self.nat_compare(e, a, b)
+        self.fail(e, "comparison of %s with %s" % (ta, tb))
+
+
+EDIT_HEAD = """(* GENERATED by harness/translate_small.py from the Python source of the current
+   working tree (%s) on every run of a check.  Do not edit.
+   Each definition is the line-by-line image of one Python function in the subset
+   documented in the translator; the numbers in the comments are source lines.
+   theories/SmallGenProofsEdit.v proves them equal to the hand-written model of
+   theories/EditRules.v on the text of every list of well-shaped lines. *)
+From Coq Require Import List Arith NArith Bool.
+From Pcfg Require Import KernelRt SmallRt EditRules.
+Import ListNotations.
+
+Section Edit.
+(* Python's re.search for the user's regexes (the model's oracle) and str.isspace *)
+Context (re_search : str -> str -> bool) (isspace : N -> bool).
+(* the value of a subscript that raises in Python *)
+Context (undef_str : str).
+
+"""
+
+EDIT_SPECS = [
+    dict(py="check_regex", coq="py_check_regex", params=[("grammar", STR), ("grammar_regex", STRS)], ret=STR),
+    dict(py="edit_terminal_set", coq="py_edit_terminal_set", params=[("grammar", STR), ("terminal_set", STRS)], ret=STR),
+    dict(py="edit_length", coq="py_edit_length", params=[("grammar", STR), ("min_length", NAT), ("max_length", NAT)],
+         ret=RES, note="int('') raises ValueError: the result is [Raise]"),
+]
+BUILTINS_USED = {"print", "int", "len", "sum", "enumerate", "range", "open"}
+
+
+def edit_rules_slice(path, fn):
+    """the filter passes of edit_rules: the maximal run of `if config.get(..)...: grammar = f(grammar, ..)`
+    statements; what is before must end by binding `grammar`, what is after may only read it"""
+    names = {s["py"] for s in EDIT_SPECS}
+
+    def is_pass(st):
+        return (isinstance(st, ast.If) and not st.orelse and len(st.body) == 1 and isinstance(st.body[0], ast.Assign)
+                and len(st.body[0].targets) == 1 and isinstance(st.body[0].targets[0], ast.Name)
+                and st.body[0].targets[0].id == "grammar" and isinstance(st.body[0].value, ast.Call)
+                and isinstance(st.body[0].value.func, ast.Name) and st.body[0].value.func.id in names)
+
+    def mentions(st, what):
+        return any(isinstance(n, ast.Name) and n.id in what for n in ast.walk(st))
+
+    idx = [i for i, st in enumerate(fn.body) if is_pass(st)]
+    if not idx or idx != list(range(idx[0], idx[-1] + 1)):
+        raise TranslateError("%s:%d: edit_rules: the filter passes are not one run of "
+                             "`if ...: grammar = f(grammar, ...)` statements" % (path, fn.lineno))
+    before, sl, after = fn.body[:idx[0]], fn.body[idx[0]:idx[-1] + 1], fn.body[idx[-1] + 1:]
+    for st in before + after:
+        if mentions(st, names):
+            raise TranslateError("%s:%d: edit_rules: a filter function is used outside the run of passes" % (path, st.lineno))
+    last = before[-1] if before else None
+    if not (isinstance(last, ast.Assign) and len(last.targets) == 1 and isinstance(last.targets[0], ast.Name)
+            and last.targets[0].id == "grammar"):
+        raise TranslateError("%s:%d: edit_rules: the statement before the passes does not bind `grammar`" % (path, fn.lineno))
+    for st in before[:-1]:
+        for n in ast.walk(st):
+            if isinstance(n, ast.Name) and n.id == "grammar":
+                raise TranslateError("%s:%d: edit_rules: `grammar` is used before it is read from the file" % (path, st.lineno))
+    wrote = False
+    for st in after:
+        for n in ast.walk(st):
+            if isinstance(n, ast.Name) and n.id == "grammar":
+                if not isinstance(n.ctx, ast.Load):
+                    raise TranslateError("%s:%d: edit_rules: `grammar` is rebound after the passes" % (path, st.lineno))
+                wrote = True
+    if not wrote:
+        raise TranslateError("%s:%d: edit_rules: the result of the passes is not used" % (path, fn.lineno))
+    # `config` must be the parameter all along
+    for st in fn.body:
+        for n in ast.walk(st):
+            if isinstance(n, ast.Name) and n.id == "config" and not isinstance(n.ctx, ast.Load):
+                raise TranslateError("%s:%d: edit_rules: `config` is rebound" % (path, st.lineno))
+    return sl
+
+
+def render_edit(repo=None):
+    rel = "edit_rules.py"
+    path, tree = parse(repo, rel)
+    defs = defs_of(path, tree.body)
+    check_not_rebound(path, tree, {s["py"] for s in EDIT_SPECS} | {"edit_rules"} | BUILTINS_USED)
+    check_module_name(path, tree, "re")
+    parts, done = [], {}
+    for spec in EDIT_SPECS:
+        fn = defs.get(spec["py"])
+        if fn is None:
+            raise TranslateError("%s: %s not found" % (path, spec["py"]))
+        parts.append(EditTr(path, rel, "", fn, spec, done).translate())
+        done[spec["py"]] = spec
+    fn = defs.get("edit_rules")
+    if fn is None:
+        raise TranslateError("%s: edit_rules not found" % path)
+    spec = dict(py="edit_rules", coq="py_edit_passes", params=[("config", CFG)], ret=RES, falls_to="grammar",
+                note="only the filter passes (between reading and writing Grammar/grammar.txt); the result is the "
+                     "text written back")
+    tr = EditTr(path, rel, "", fn, spec, done)
+    sl = edit_rules_slice(path, fn)
+    tr.extra_params = [("grammar", STR)]
+    parts.append(tr.translate(sl))
+    return EDIT_HEAD % rel + "\n".join(parts) + "\nEnd Edit.\n"
+
+
 # ====================================================================== shared file handling
 def parse(repo, rel):
     repo = repo or common.REPO
@@ -1164,6 +1464,7 @@ def check_module_name(path, tree, mod):
 
 KERNELS = {}     # name -> (render function, output file)
 KERNELS["walk"] = (render_walk, os.path.join("gen", "Small_walk_gen.v"))
+KERNELS["edit"] = (render_edit, os.path.join("gen", "Small_edit_gen.v"))
 
 
 def failure_text(name, err):
